@@ -95,7 +95,7 @@ PROPS = {
                 known=["explicit_same_pkg", "unexported_foreign"]),
     "C11": dict(kind="gen", files=["P_C11.v", "Registry_Proofs.v", "P_C11_distinct.v", "Distinct_Proofs.v", "P_C11_exact.v", "Imports_Proofs.v", "Printer_Proofs.v"], theorems=[thm("C11_exact", "P_C11_exact"), thm("C11_distinct_known", "P_C11_distinct"), thm("C11_distinct_no_conflict", "P_C11_distinct"), thm("C11_distinct_direct", "P_C11_distinct"), thm("C11_distinct_direct_example", "P_C11_distinct"), thm("C11_distinct_step", "P_C11_distinct"), thm("C11_distinct_whole_run", "P_C11_distinct"), thm("C11_distinct_guard_holds", "P_C11_distinct"), thm("C11_exact_no_missing", "P_C11_exact"), thm("C11_exact_nothing_else", "P_C11_exact"), thm("C11_printer_consults_mentions", "P_C11_exact"), thm("C11_walk_covers_printer", "P_C11_exact"), thm("C11_exact_premise_holds", "P_C11_exact"), thm("C11_once", "P_C11"), thm("C11_sorted", "P_C11"), thm("C11_never_imports_destination", "P_C11"), thm("C11_keep_alias", "P_C11"), thm("C11_no_dot_blank", "P_C11"), thm("C11_vendor_example", "P_C11"), thm("C11_sync_when_methods", "P_C11"), thm("C11_distinct_refuted", "P_C11"), thm("C11_identifier_refuted", "P_C11")], oracle=O.o_c11,
                 known=["alias_duplicate", "alias_not_identifier", "walk_incomplete", "explicit_same_pkg"]),
-    "C12": dict(kind="gen", files=["P_C12.v", "P_C19.v", "P_C12_names.v", "Names_Proofs.v"], theorems=[thm("C12_type_derived_name_is_identifier", "P_C12_names"), thm("C12_var_name_is_identifier", "P_C12_names"), thm("C12_add_var_names_are_identifiers", "P_C12_names"), thm("C12_reserved_covers_keywords", "P_C12"), thm("C12_reserved_covers_basic_types", "P_C12"), thm("C12_suffix_escapes_table", "P_C12"), thm("C12_generated_not_reserved", "P_C12"), thm("C12_fresh", "P_C12"), thm("C12_numbering_keeps_distinct", "P_C12"), thm("C12_add_var_keeps_distinct", "P_C12"), thm("C12_number_two_fixed", "P_C12"), thm("C12_user_reserved_fixed", "P_C12"), thm("C12_user_reserved_refuted", "P_C12"), thm("C12_fields_refuted", "P_C12"), thm("C12_numbering_crash_fixed", "P_C12")], oracle=O.o_c12,
+    "C12": dict(kind="gen", files=["P_C12.v", "P_C19.v", "P_C12_names.v", "Names_Proofs.v"], theorems=[thm("C12_type_derived_name_is_identifier", "P_C12_names"), thm("C12_var_name_is_identifier", "P_C12_names"), thm("C12_add_var_names_are_identifiers", "P_C12_names"), thm("C12_distinct_whole_run", "P_C12_names"), thm("C12_distinct_guard_holds", "P_C12_names"), thm("C12_reserved_covers_keywords", "P_C12"), thm("C12_reserved_covers_basic_types", "P_C12"), thm("C12_suffix_escapes_table", "P_C12"), thm("C12_generated_not_reserved", "P_C12"), thm("C12_fresh", "P_C12"), thm("C12_numbering_keeps_distinct", "P_C12"), thm("C12_add_var_keeps_distinct", "P_C12"), thm("C12_number_two_fixed", "P_C12"), thm("C12_user_reserved_fixed", "P_C12"), thm("C12_user_reserved_refuted", "P_C12"), thm("C12_fields_refuted", "P_C12"), thm("C12_numbering_crash_fixed", "P_C12")], oracle=O.o_c12,
                 known=["names_distinct", "fields_distinct", "names_body_idents", "names_keywords",
                        "names_shadow_types", "names_qualifiers", "names_tparams", "tparams_clash",
                        "mock_name_twice", "method_name_clash"]),
@@ -327,6 +327,11 @@ def run(ctx):
                     failures.append(dict(case=cr, fails=fails, families=sorted(fams)))
             elif fams & set(spec["known"]) and ctx.pid == "C01":
                 notes.append("model predicts %s but go/types accepts %s" % (sorted(fams), cr["case"]["id"]))
+        if ctx.pid == "C12":
+            inside = [cr for cr in cases if cr["verdict"] and "outside_names_guard" not in cr["families"]]
+            notes.insert(0, "guard of C12_distinct_whole_run (no import-driven rename lands on a taken name): "
+                            "%d of %d compared cases are inside it"
+                         % (len(inside), sum(1 for cr in cases if cr["verdict"])))
         if ctx.pid == "C11":
             inside = [cr for cr in cases if cr["verdict"] and "outside_benign_guard" not in cr["families"]]
             notes.insert(0, "guard of C11_distinct_whole_run (every AddImport of the run is known / conflict-free / "
